@@ -212,6 +212,11 @@ class PathTemplateWriter:
 
             # insert the rotation stamp into the new filename.
             dst = os.path.join(src_dir, "{fname}.{stamp}.{ext}".format(**locals()))
+            # the stamp has a resolution of one second: never replace a file that was rotated earlier in the same second
+            counter = 0
+            while os.path.exists(dst):
+                counter += 1
+                dst = os.path.join(src_dir, "{fname}.{stamp}.{counter}.{ext}".format(**locals()))
             log.info("RENAME {!r} -> {!r}".format(src, dst))
             os.rename(src, dst)
 
